@@ -95,10 +95,16 @@ class TextPixelRegion(PointPixelRegion):
         artist : `~matplotlib.text.Text`
             A matplotlib Text object.
         """
+        from matplotlib import cbook
         from matplotlib.text import Text
 
-        mpl_kwargs = self.visual.define_mpl_kwargs(self._mpl_artist)
-        mpl_kwargs.update(kwargs)
+        # matplotlib Text properties have aliases (e.g., ha, va, size);
+        # use the property names for the stored attributes and for the
+        # caller's keywords, so that a keyword overrides the stored
+        # value instead of conflicting with it or being overridden by it
+        mpl_kwargs = cbook.normalize_kwargs(
+            self.visual.define_mpl_kwargs(self._mpl_artist), Text)
+        mpl_kwargs.update(cbook.normalize_kwargs(kwargs, Text))
 
         return Text(self.center.x - origin[0], self.center.y - origin[1],
                     self.text, **mpl_kwargs)
